@@ -262,7 +262,7 @@ def case(rng, idx, params):
     scn = {"prop": "C09", "kind": kind, "kwargs": kw, "tf": tf, "fill": fill, "family": family, "stream": stream, "init": init, "chunks": chunks,
            "bare_single": rng.random() < 0.5}
     if rng.random() < 0.1 and cm.have_numpy():
-        scn["numpy"] = True   # prices and volumes as numpy.float64
+        scn["numpy"] = rng.choice([True, "mixed"])   # prices and volumes as numpy.float64 (all candles, or every other one)
     if rng.random() < 0.1 and stream and all(r[0] is not None for r in stream):
         scn["tzoff"] = rng.choice([0, 330, 345, 60, -300, 765])   # timezone-aware stamps (what ISO strings with an offset parse to)
     viol, info = check(scn)
